@@ -1024,8 +1024,10 @@ MANIFEST = {
     "category": "other",
     "text": "Partial by nature: the sequential contract of ExternalOptimizer.start (death is never success, exceptions never swallowed, child always signalled and waited for, resources "
             "released) and the forwarding fidelity of both sides are checked on every path of the real code against an exhaustively explored abstract process/communicator/OS "
-            "environment (bounded to 2 evaluations, one fault per run). 'Never hangs', real two-process schedules and trace equality with the in-process run are NOT decided by "
-            "contracts; the last is exercised natively with the real process in the thorough tier only.",
+            "environment (bounded to 2 evaluations, one fault per run). The statement itself (same evaluations, same results, same way of ending) is observed on the two REAL halves of the module talking to each "
+            "other over an abstract JSON pipe (the parent's start() and, in a thread standing for the process, the child's entry point) - request scripts with vectors, populations and a "
+            "population of one. 'Never hangs' is decided only as a ghost bound on the parent's waiting (at most 200 reads after the abstract child's last message); real two-process "
+            "schedules are NOT decided by contracts; trace equality with a real process is exercised natively in the thorough tier only.",
     "note": "_JSONPipeCommunicator is under contract against an abstract os/selectors (no unbounded blocking primitive, finite timeouts, whole messages, descriptors closed) and _PluginOptimizer.run against an abstract communicator; Popen/FIFO/os.kill abstract; liveness and OS scheduling outside the technique (DESIGN section 8); trace equality only bounded native evidence (thorough tier), resting on C18 idempotence and SciPy determinism",
     "technique": "contract-based verification of the sequential request loop: symbolic-execution engine enumerating all environment choices over the real source with abstract process/communicator contracts; bounded native runs as stand-in",
 }
